@@ -98,7 +98,7 @@ def seg_name(case, i):
 
 def seg_ids(case, names):
     idx = case.setdefault("_idx", {s: i + 1 for i, s in enumerate(case["segs"])})
-    return [idx[s] for s in names]
+    return [idx.get(s, -1) for s in names]
 
 
 def make_leaf(case, f, fid=None):
@@ -145,7 +145,8 @@ def flat_json(js, prefix=()):
     out = {}
     for k, v in js.items():
         for p, val in flat_json(v, prefix + tuple(k.split("/"))).items():
-            assert p not in out
+            while p in out:                 # the same path twice: keep both, the oracle
+                p = p + ("<again>",)        # then reports the mismatch
             out[p] = val
     return out
 
@@ -187,10 +188,9 @@ def parse_serialized(case, text):
 
 
 def exc_code(e):
-    code = EXC.get(type(e).__name__)
-    if code is None:
-        raise e
-    return code
+    """small tag enum of common.TAGS; 99 = an exception the model has no tag for
+    (always a disagreement and, on oracle cases, a failure)"""
+    return EXC.get(type(e).__name__, 99)
 
 
 # ------------------------------------------------------------- TREE -------
@@ -231,7 +231,7 @@ def tree_oracle(chk, case, out):
     if not all(paths) or not prefix_free(paths):
         return
     if out[0] != 0:
-        chk.fail("tree-raises", case_public(case), out)
+        _fail(chk, "tree-raises", case_public(case), out)
         return
     exp = {}
     for p, (_, _, xs) in zip(paths, case["ops"]):
@@ -247,9 +247,9 @@ def tree_oracle(chk, case, out):
         return d
     got = fl(js)
     if got != exp or len(got) != len(exp):
-        chk.fail("tree-detail-misplaced", case_public(case), {"toJSON": got, "expected": exp})
+        _fail(chk, "tree-detail-misplaced", case_public(case), {"toJSON": got, "expected": exp})
     if sorted(flat) != sorted([list(k), v] for k, v in exp.items()):
-        chk.fail("tree-content-misplaced", case_public(case), {"getContent": flat, "expected": exp})
+        _fail(chk, "tree-content-misplaced", case_public(case), {"getContent": flat, "expected": exp})
     # invariant: sibling keys non-empty with pairwise distinct first segments
 
     def inv(j):
@@ -258,7 +258,20 @@ def tree_oracle(chk, case, out):
         heads = [k[0] if k else None for k, _ in j[1]]
         return None not in heads and len(set(heads)) == len(heads) and all(inv(v) for _, v in j[1])
     if not inv(js):
-        chk.fail("tree-invariant", case_public(case), {"toJSON": js})
+        _fail(chk, "tree-invariant", case_public(case), {"toJSON": js})
+
+
+def _fail(chk, signature, case, detail):
+    chk.fail(signature, jsonable(case), jsonable(detail))
+
+
+def jsonable(x):
+    """dict keys -> str, tuples -> lists (replay files are JSON)"""
+    if isinstance(x, dict):
+        return {str(k): jsonable(v) for k, v in x.items()}
+    if isinstance(x, (list, tuple)):
+        return [jsonable(v) for v in x]
+    return x
 
 
 def case_public(case):
@@ -561,21 +574,21 @@ def observer_oracle(chk, case, ol, outs):
     exp, rets = expected_observer(case, q)
     pub = case_public(case)
     if outs != rets:
-        chk.fail("fanout-verdict", pub, {"returned": outs, "expected": rets})
+        _fail(chk, "fanout-verdict", pub, {"returned": outs, "expected": rets})
     everyone = [(-1, ol)] + list(enumerate(ol.observers))
     for i, o in everyone:
         js = o.toJSON()
         got = {(0 if loc is None else seg_ids(case, [loc])[0]): dict(c) for loc, c in js["summary"].items()}
         if got != exp[i]["summary"]:
-            chk.fail("summary-count", pub, {"observer": i, "summary": got, "expected": exp[i]["summary"]})
+            _fail(chk, "summary-count", pub, {"observer": i, "summary": got, "expected": exp[i]["summary"]})
         if bool(o.error) != exp[i]["error"]:
-            chk.fail("error-flag", pub, {"observer": i, "error": o.error, "expected": exp[i]["error"]})
+            _fail(chk, "error-flag", pub, {"observer": i, "error": o.error, "expected": exp[i]["error"]})
         if flat_canon(case, js["details"]) != exp[i]["details"]:
-            chk.fail("detail-misplaced", pub, {"observer": i, "details": js["details"],
+            _fail(chk, "detail-misplaced", pub, {"observer": i, "details": js["details"],
                                                "expected": {str(k): v for k, v in exp[i]["details"].items()}})
     errors = sum(c["errors"] for c in exp[-1]["summary"].values())
     if bool(ol.error) != (errors > 0):
-        chk.fail("exit-vs-errors", pub, {"error": ol.error, "errors_counted": errors})
+        _fail(chk, "exit-vs-errors", pub, {"error": ol.error, "errors_counted": errors})
     # quiet: same history at every level
     prev = None
     for lvl in range(0, 5):
@@ -587,13 +600,13 @@ def observer_oracle(chk, case, ol, outs):
                          bool(o.error),
                          flat_json(js["details"])))
         if outs2 != outs:
-            chk.fail("quiet-changes-verdict", pub, {"quiet": lvl})
+            _fail(chk, "quiet-changes-verdict", pub, {"quiet": lvl})
         if prev is not None:
             for (s0, e0, d0), (s1, e1, d1) in zip(prev, snap):
                 if s0 != s1 or e0 != e1:
-                    chk.fail("quiet-changes-summary", pub, {"quiet": lvl, "before": s0, "after": s1})
+                    _fail(chk, "quiet-changes-summary", pub, {"quiet": lvl, "before": s0, "after": s1})
                 if not all(p in d0 and is_subseq(v, d0[p]) for p, v in d1.items()):
-                    chk.fail("quiet-adds-detail", pub, {"quiet": lvl, "before": str(d0), "after": str(d1)})
+                    _fail(chk, "quiet-adds-detail", pub, {"quiet": lvl, "before": str(d0), "after": str(d1)})
         prev = snap
 
 
@@ -935,13 +948,13 @@ def run_cli(chk, model):
             want_rv = 1 if errors > 0 and not proj["return_zero"] else 0
             chk.hist("cli_exit", want_rv)
             if rv != want_rv:
-                chk.fail("exit-status", pub, {"returned": rv, "errors_counted": errors,
+                _fail(chk, "exit-status", pub, {"returned": rv, "errors_counted": errors,
                                               "return_zero": proj["return_zero"]})
             if len(data) != len(exp):
-                chk.fail("cli-json-shape", pub, {"observers": len(data)})
+                _fail(chk, "cli-json-shape", pub, {"observers": len(data)})
             for (summ, details), got in zip(exp, data):
                 if got["summary"] != summ:
-                    chk.fail("cli-summary", pub, {"summary": got["summary"], "expected": summ})
+                    _fail(chk, "cli-summary", pub, {"summary": got["summary"], "expected": summ})
                 flat = {"/".join(p): v for p, v in flat_json(got["details"]).items()} \
                     if got["details"] != {} else {}
 
@@ -949,18 +962,18 @@ def run_cli(chk, model):
                     return sorted(json.dumps(x if isinstance(x, dict) and next(iter(x)) not in ("error", "warning")
                                              else (next(iter(x)) if isinstance(x, dict) else x)) for x in items)
                 if {k: norm(v) for k, v in flat.items()} != {k: norm(v) for k, v in details.items()}:
-                    chk.fail("cli-detail-misplaced", pub, {"details": flat, "expected": details})
+                    _fail(chk, "cli-detail-misplaced", pub, {"details": flat, "expected": details})
             # the union: the list's own observer drives the text output and the exit status
             ol = rec.list
             own_errors = sum(c["errors"] for c in ol.summary.values())
             if own_errors != errors or bool(ol.error) != (errors > 0):
-                chk.fail("cli-union-errors", pub, {"own_errors": own_errors, "error": ol.error,
+                _fail(chk, "cli-union-errors", pub, {"own_errors": own_errors, "error": ol.error,
                                                    "expected": errors})
             for loc in proj["locales"]:
                 for k in SUMMARY_KEYS:
                     tot = sum(s.get(loc, {}).get(k, 0) for s, _ in exp)
                     if ol.summary.get(loc, {}).get(k, 0) != tot:
-                        chk.fail("cli-union-summary", pub, {"locale": loc, "key": k,
+                        _fail(chk, "cli-union-summary", pub, {"locale": loc, "key": k,
                                                             "own": ol.summary.get(loc, {}).get(k, 0),
                                                             "expected": tot})
             # ---- model on the recorded stream ------------------------------
